@@ -305,7 +305,7 @@ def check_machine(ctx, case):
 
 
 def part_machine(ctx):
-    n = 500 if ctx.tier == "quick" else 4000
+    n = 500 if ctx.tier == "quick" else 30000
     hyp_run(ctx, MACHINE, lambda c: check_machine(ctx, c), n, name="machine")
 
 
